@@ -451,7 +451,7 @@ func c06NewChain(r *sim.Run, sc *c06Scenario) (*c06Chain, error) {
 			}
 		}()
 		c.mux.ServeHTTP(w, req)
-	}), IdleTimeout: 60 * time.Second}
+	})} // no idle timeout: the clients replace connections unused for 30 s themselves (a server-side idle deadline expiring inside a scheduler stall, together with the client's close, was not reproducible)
 	go c.front.Serve(fl)
 	return c, nil
 }
